@@ -4,6 +4,8 @@
 
 package pfcpiface
 
+import "fmt"
+
 // This file is compiled only with the build tag "verif". It gives the external
 // verification harness access to a few unexported pure functions and a
 // scheduling/observation hook. It adds no behaviour to the agent.
@@ -96,4 +98,84 @@ func VerifParseFlowDesc(flowDesc, ueIP string) (*VerifFlowDesc, error) {
 // VerifCalculateBitRates calls calculateBitRates.
 func VerifCalculateBitRates(mbr uint64, unit string) uint64 {
 	return calculateBitRates(mbr, unit)
+}
+
+// VerifSnapshot returns a read-only summary of allocator and store state. It is meant to be
+// called at quiescence by the verification harness; it takes the locks the owners take.
+func (p *PFCPIface) VerifSnapshot() map[string]interface{} {
+	out := map[string]interface{}{}
+
+	u := p.upf
+	if u == nil {
+		return out
+	}
+
+	out["connected"] = u.isConnected()
+
+	if u.ippool != nil {
+		held := map[string]string{}
+
+		u.ippool.mu.Lock()
+		for seid, ip := range u.ippool.inventory {
+			held[fmt.Sprint(seid)] = ip.String()
+		}
+
+		out["ipFree"] = len(u.ippool.freePool)
+		u.ippool.mu.Unlock()
+
+		out["ipHeld"] = held
+	}
+
+	if g := u.fteidGenerator; g != nil {
+		g.lock.Lock()
+		teids := make([]string, 0, len(g.usedMap))
+
+		for off := range g.usedMap {
+			if len(teids) < 4096 {
+				teids = append(teids, fmt.Sprint(uint64(off)+minValue))
+			}
+		}
+
+		out["teidCount"] = len(g.usedMap)
+		out["teidCursor"] = fmt.Sprint(g.offset)
+		g.lock.Unlock()
+
+		out["teids"] = teids
+	}
+
+	p.mu.Lock()
+	node := p.node
+	p.mu.Unlock()
+
+	conns := map[string]interface{}{}
+
+	if node != nil {
+		node.pConns.Range(func(key, value interface{}) bool {
+			pConn, ok := value.(*PFCPConn)
+			if !ok {
+				return true
+			}
+
+			seids := []string{}
+			for _, s := range pConn.store.GetAllSessions() {
+				seids = append(seids, fmt.Sprint(s.localSEID))
+			}
+
+			conns[fmt.Sprint(key)] = map[string]interface{}{"seids": seids, "nodeID": pConn.nodeID.remote}
+
+			return true
+		})
+	}
+
+	out["conns"] = conns
+
+	if up4, ok := p.fp.(*UP4); ok {
+		out["up4"] = up4.verifSnapshot()
+	}
+
+	return out
+}
+
+func (up4 *UP4) verifSnapshot() map[string]interface{} {
+	return map[string]interface{}{}
 }
